@@ -40,6 +40,7 @@ import XdslModel.RiscVFrameFloat
 import XdslModel.RawScan
 import XdslModel.SsaNames
 import XdslModel.X86Rules
+import XdslModel.SSADom
 /-!
 Model registry for the driver: `MODEL <name>` selects a `(state, lineStep)` pair.
 A continuation-passing encoding is used because the state types differ.
@@ -95,6 +96,7 @@ def run? (name : String) : Option Runner :=
   | "raw_scan" => some fun k => k RawScan.lineStep ()
   | "ssa_names" => some fun k => k SsaNames.lineStep {}
   | "x86_rules" => some fun k => k X86.Lower.lineStep ()
+  | "ssa_dom" => some fun k => k SSADom.lineStep ()
   | _ => none
 
 end Xdsl.Registry
